@@ -37,6 +37,7 @@ type Violation struct {
 	Cfg    *Cfg            `json:"cfg,omitempty"`
 	Extra  json.RawMessage `json:"extra,omitempty"` // check-specific replay data (choices, scale, renaming, ...)
 	Detail string          `json:"detail"`
+	GoTest string          `json:"go_test,omitempty"` // a plain unit test that replays the case without the explorer
 }
 
 type Stats struct {
@@ -228,6 +229,9 @@ func (x *Ctx) Violate(class string, c *Cfg, extra any, detail string) {
 	v := Violation{Prop: x.prop, Class: class, Pass: x.pass.Name, Input: x.curInput.Clone(), Cfg: c, Detail: detail}
 	if extra != nil {
 		v.Extra, _ = json.Marshal(extra)
+	}
+	if c != nil && len(x.curInput.E)%2 == 0 && len(x.curInput.E) <= 60 {
+		v.GoTest = goTest(x.prop, x.curInput, *c, detail)
 	}
 	x.emitLine(map[string]any{"t": "V", "v": v})
 }
